@@ -18,6 +18,9 @@ import traceback
 from . import REPO, VENV_PY, VERIF
 
 
+import contracts as _contracts  # noqa: E402  (VERIF is on sys.path via `python -m pyvc.driver` run from /verif)
+
+
 def _load_spec(pid: str):
     return importlib.import_module(f"contracts.{pid.lower()}")
 
@@ -290,7 +293,7 @@ def run_property(pid: str, tier: str, seed: int) -> int:
         "obligations": n_obl, "discharged": n_dis,
         "checker_cmd": f"./check {pid} --tier {tier}  (pyvc: AST of {REPO} -> SMT-LIB; z3 5.1.0 CLI `z3-new`, unknowns to /usr/bin/cvc5 1.0.3 --strings-exp)",
         "trusted_base": sorted(trusted),
-        "explanation": getattr(spec, "EXPLANATION", ""),
+        "explanation": _contracts.text_of(spec, "EXPLANATION"),
         "units": unit_reports, "obligation_groups": _group_reports(ob_reports),
         "obligation_results_not_discharged": [r for r in ob_reports if r["verdict"] != "discharged"][:300],
         "obligation_results_sample": ob_reports[:60], "undecided": undecided[:300], "solver_s_total": round(solver_s, 2),
@@ -306,7 +309,7 @@ def run_property(pid: str, tier: str, seed: int) -> int:
     }
     ev = {
         "property_id": pid, "tier": tier, "seed": seed, "level": level, "coverage": coverage,
-        "assumptions": list(getattr(spec, "ASSUMPTIONS", [])), "wall_s": round(time.time() - t0, 2), "violations": len(violations),
+        "assumptions": list(getattr(spec, "ASSUMPTIONS", [])) or list(_contracts.COMMON_ASSUMPTIONS), "wall_s": round(time.time() - t0, 2), "violations": len(violations),
     }
     os.makedirs(os.path.join(VERIF, "evidence"), exist_ok=True)
     json.dump(ev, open(os.path.join(VERIF, "evidence", f"{pid}.json"), "w"), indent=1, default=str)
